@@ -131,3 +131,187 @@ theorem walkMsg_fed (oid : Nat) (w : Bytes) (s : Nat) (rest : Bytes) (ho : Octet
     rw [getD_eq, getD_eq, e' i a b]
 
 end Model.Tsig
+
+namespace Model.Tsig
+open Model Rfc8945
+
+theorem be2_inj (a b : Nat) (ha : a < 65536) (hb : b < 65536) (h : be 2 a = be 2 b) : a = b := by
+  simp [be] at h; omega
+
+theorem be6_inj (a b : Nat) (ha : a < 281474976710656) (hb : b < 281474976710656) (h : be 6 a = be 6 b) : a = b := by
+  simp [be] at h; omega
+
+theorem rd32_lt (w : Bytes) (h : OctetsOk w) (i : Nat) : rd32 w i < 4294967296 := by
+  have a := rd16_lt w h i
+  have b := rd16_lt w h (i + 2)
+  unfold rd32; omega
+
+theorem rd48_lt (w : Bytes) (h : OctetsOk w) (i : Nat) : rd48 w i < 281474976710656 := by
+  have a := rd16_lt w h i
+  have b := rd32_lt w h (i + 2)
+  unfold rd48; omega
+
+theorem rdataParse_bounds (w : Bytes) (a b : Nat) (rd : Rdata) (ho : OctetsOk w) (h : rdataParse w a b = .ok rd) :
+    rd.timeSigned < 281474976710656 ∧ rd.fudge < 65536 ∧ rd.originalId < 65536 ∧ rd.error < 65536 := by
+  unfold rdataParse at h
+  split at h; · cases h
+  split at h; · cases h
+  split at h; · cases h
+  dsimp only at h
+  split at h; · cases h
+  split at h; · cases h
+  split at h; · cases h
+  split at h; · cases h
+  split at h; · cases h
+  cases h
+  exact ⟨rd48_lt w ho _, rd16_lt w ho _, rd16_lt w ho _, rd16_lt w ho _⟩
+
+/-- what an accepting run with a fixed key establishes about a message reported as signed -/
+structure Accepted (V : Verifier) (tbl : List AlgEntry) (w : Bytes) (k : Key) (now : Nat) (rm : Bytes)
+    (ctx : Option Ctx) (multi : Bool) (s p : Nat) (owner : Name) (rd : Rdata) (c : Ctx) (c' : Option Ctx) : Prop where
+  len : 12 ≤ w.length
+  walk : walkTo w = some s
+  name : skipName w w.length (w.length + 1) s = some p
+  hdr : p + 10 + rd16 w (p + 8) = w.length
+  typ : rd16 w p = ConstsC14.typeTsig
+  cls : rd16 w (p + 2) = ConstsC14.classAny
+  own : ∃ k', fromWire w s = .ok (owner, k')
+  parse : rdataParse w (p + 10) w.length = .ok rd
+  valid : validateV V tbl w k owner rd now rm s ctx multi = .ok (c, c')
+
+theorem accepted_of_read (V : Verifier) (tbl : List AlgEntry) (strict : Bool) (w : Bytes) (k : Key) (now : Nat)
+    (rm : Bytes) (ctx : Option Ctx) (multi : Bool) (r : ReadOk) (f : Found)
+    (h : readV V tbl strict w (.key k) now rm ctx multi = .ok r) (hf : r.tsig = some f) :
+    ∃ s p owner rd c c', f = ⟨owner, rd, some (c, rd.mac)⟩ ∧ r.ctx = c'
+      ∧ Accepted V tbl w k now rm ctx multi s p owner rd c c' ∧ (strict = true → rd32 w (p + 4) = 0) := by
+  obtain ⟨hl, _, s, p, st3, hw, hp, ht, hr, hend, hts, hctx⟩ := readV_signed V tbl strict w (.key k) now rm ctx multi r f h hf
+  obtain ⟨_, hcls, _, hstrict, hle, hcur, owner, k', rd, hfw, hrd, hcase⟩ :=
+    readRR_tsig V tbl strict w (.key k) now rm multi 3 _ _ ⟨s, none, ctx⟩ st3 p hp ht hr
+  have hwl : p + 10 + rd16 w (p + 8) = w.length := by rw [← hcur, hend]
+  rcases hcase with ⟨hres, _, _⟩ | ⟨key, c, c', hres, hv, htsig, hc'⟩
+  · simp [resolveKey] at hres
+  · simp only [resolveKey, Except.ok.injEq, Option.some.injEq] at hres
+    subst hres
+    refine ⟨s, p, owner, rd, c, c', ?_, by rw [hctx, hc'], ⟨hl, hw, hp, hwl, ht, hcls, ⟨k', hfw⟩, by rw [← hwl]; exact hrd, hv⟩, hstrict⟩
+    rw [hts] at htsig
+    exact (Option.some.inj htsig)
+
+/-- **the MAC input determines the authenticated content.**  Two messages accepted as signed under the same
+key, request MAC, running context and `multi`, whose MAC inputs are the same octet string: their TSIG RRs start
+at the same offset, they agree on every octet from 2 up to there (everything but the message ID), and on the
+original ID, time signed and fudge; for a first/stand-alone message also on error and other data. -/
+theorem same_input_same_content (V1 V2 : Verifier) (tbl : List AlgEntry) (w1 w2 : Bytes) (k : Key) (now1 now2 : Nat)
+    (rm : Bytes) (ctx : Option Ctx) (multi : Bool) (s1 s2 p1 p2 : Nat) (o1 o2 : Name) (rd1 rd2 : Rdata) (c1 c2 : Ctx)
+    (c1' c2' : Option Ctx) (ho1 : OctetsOk w1) (ho2 : OctetsOk w2)
+    (a1 : Accepted V1 tbl w1 k now1 rm ctx multi s1 p1 o1 rd1 c1 c1')
+    (a2 : Accepted V2 tbl w2 k now2 rm ctx multi s2 p2 o2 rd2 c2 c2')
+    (hd : c1.data = c2.data) :
+    s1 = s2 ∧ (∀ i, 2 ≤ i → i < s1 → w1[i]? = w2[i]?)
+      ∧ rd1.originalId = rd2.originalId ∧ rd1.timeSigned = rd2.timeSigned ∧ rd1.fudge = rd2.fudge
+      ∧ ((multi = false ∨ ctx = none) → rd1.error = rd2.error ∧ rd1.other = rd2.other) := by
+  obtain ⟨h01, _, _, _, _, hd1, _, _⟩ := validateV_ok V1 tbl w1 k o1 rd1 now1 rm s1 ctx multi c1 c1' a1.valid
+  obtain ⟨h02, _, _, _, _, hd2, _, _⟩ := validateV_ok V2 tbl w2 k o2 rd2 now2 rm s2 ctx multi c2 c2' a2.valid
+  have hs1 : s1 ≤ w1.length := by have := skipName_bounds _ _ _ _ _ a1.name; omega
+  have hs2 : s2 ≤ w2.length := by have := skipName_bounds _ _ _ _ _ a2.name; omega
+  have hb1 := (walkTo_bounds w1 s1 a1.walk).1
+  have hb2 := (walkTo_bounds w2 s2 a2.walk).1
+  obtain ⟨bt1, bf1, bo1, be1⟩ := rdataParse_bounds w1 _ _ rd1 ho1 a1.parse
+  obtain ⟨bt2, bf2, bo2, be2⟩ := rdataParse_bounds w2 _ _ rd2 ho2 a2.parse
+  -- both inputs are a common prefix followed by the fed message and a rest
+  have key : ∃ (P r1 r2 : Bytes), c1.data = P ++ fedMessage rd1.originalId w1 s1 r1
+      ∧ c2.data = P ++ fedMessage rd2.originalId w2 s2 r2
+      ∧ (r1 = r2 → rd1.timeSigned = rd2.timeSigned ∧ rd1.fudge = rd2.fudge
+          ∧ ((multi = false ∨ ctx = none) → rd1.error = rd2.error ∧ rd1.other = rd2.other)) := by
+    cases hm : (if multi then ctx else none) with
+    | none =>
+      refine ⟨(if rm = [] then [] else macField rm), variables (varsOf k rd1 none), variables (varsOf k rd2 none), ?_, ?_, ?_⟩
+      · rw [digest_first_data tbl _ k rd1 none rm ctx multi c1 hm hd1]; simp [fedMessage]
+      · rw [digest_first_data tbl _ k rd2 none rm ctx multi c2 hm hd2]; simp [fedMessage]
+      · intro hv
+        simp only [variables, varsOf, Option.getD_none, List.append_assoc] at hv
+        have hv := List.append_cancel_left hv
+        have hv := List.append_cancel_left hv
+        have hv := List.append_cancel_left hv
+        have hv := List.append_cancel_left hv
+        obtain ⟨e1, hv⟩ := List.append_inj hv (by simp [be_length])
+        obtain ⟨e2, hv⟩ := List.append_inj hv (by simp [be_length])
+        obtain ⟨e3, hv⟩ := List.append_inj hv (by simp [be_length])
+        obtain ⟨_, e4⟩ := List.append_inj hv (by simp [be_length])
+        exact ⟨be6_inj _ _ bt1 bt2 e1, be2_inj _ _ bf1 bf2 e2, fun _ => ⟨be2_inj _ _ be1 be2 e3, e4⟩⟩
+    | some c0 =>
+      have hmulti : multi = true ∧ ctx = some c0 := by
+        cases multi <;> simp at hm
+        exact ⟨rfl, hm⟩
+      obtain ⟨hmt, hcx⟩ := hmulti
+      subst hmt; subst hcx
+      refine ⟨c0.data, timers (varsOf k rd1 none), timers (varsOf k rd2 none), ?_, ?_, ?_⟩
+      · rw [digest_later_data tbl _ k rd1 none rm c0 c1 hd1]; simp [fedMessage]
+      · rw [digest_later_data tbl _ k rd2 none rm c0 c2 hd2]; simp [fedMessage]
+      · intro hv
+        simp only [timers, varsOf, Option.getD_none] at hv
+        obtain ⟨e1, e2⟩ := List.append_inj hv (by simp [be_length])
+        refine ⟨be6_inj _ _ bt1 bt2 e1, be2_inj _ _ bf1 bf2 e2, fun h => ?_⟩
+        rcases h with h | h <;> simp at h
+  obtain ⟨P, r1, r2, e1, e2, hrest⟩ := key
+  rw [e1, e2] at hd
+  have hfed := List.append_cancel_left hd
+  -- the walk ends where the TSIG RR started, in both
+  have hw1 := walkMsg_fed rd1.originalId w1 s1 r1 ho1 a1.len a1.walk hs1
+  have hw2 := walkMsg_fed rd2.originalId w2 s2 r2 ho2 a2.len a2.walk hs2
+  rw [hfed, hw2] at hw1
+  have hs : s1 = s2 := (Option.some.inj hw1).symm
+  subst hs
+  -- split the fed string
+  unfold fedMessage at hfed
+  have hl1 : (message rd1.originalId (newWire w1 s1)).length = (message rd2.originalId (newWire w2 s1)).length := by
+    simp [message, be_length, newWire_length _ _ hb1 hs1, newWire_length _ _ hb1 hs2]
+  obtain ⟨hmsg, hr⟩ := List.append_inj hfed hl1
+  unfold message at hmsg
+  obtain ⟨hoid, hdrop⟩ := List.append_inj hmsg (by simp [be_length])
+  have hoid' := be2_inj _ _ bo1 bo2 hoid
+  obtain ⟨ht, hfu, hrest'⟩ := hrest hr
+  refine ⟨rfl, ?_, hoid', ht, hfu, hrest'⟩
+  -- octet by octet
+  have hW : ∀ i, 2 ≤ i → (newWire w1 s1)[i]? = (newWire w2 s1)[i]? := by
+    intro i hi
+    have := congrArg (fun l => l[i - 2]?) hdrop
+    simp only [List.getElem?_drop] at this
+    have e : 2 + (i - 2) = i := by omega
+    rw [e] at this
+    exact this
+  intro i h2 hi
+  by_cases hlo : i < 10
+  · rw [← newWire_getElem_lo w1 s1 i a1.len hlo, ← newWire_getElem_lo w2 s1 i a2.len hlo]
+    exact hW i h2
+  · by_cases hhi : 12 ≤ i
+    · rw [← newWire_getElem_hi w1 s1 i a1.len hhi hi, ← newWire_getElem_hi w2 s1 i a2.len hhi hi]
+      exact hW i h2
+    · -- ARCOUNT: both counts are at least 1 and their predecessors are equal
+      have hc1 : rd16 w1 10 - 1 < 65536 := by have := rd16_lt w1 ho1 10; omega
+      have hc2 : rd16 w2 10 - 1 < 65536 := by have := rd16_lt w2 ho2 10; omega
+      have hr16 : rd16 (newWire w1 s1) 10 = rd16 (newWire w2 s1) 10 :=
+        rd16_congr _ _ 10 (hW 10 (by omega)) (hW 11 (by omega))
+      rw [newWire_rd16_10 w1 s1 a1.len hc1, newWire_rd16_10 w2 s1 a2.len hc2] at hr16
+      have hcount : rd16 w1 10 = rd16 w2 10 := by omega
+      have g1a := getD_lt w1 ho1 10
+      have g1b := getD_lt w1 ho1 11
+      have g2a := getD_lt w2 ho2 10
+      have g2b := getD_lt w2 ho2 11
+      unfold rd16 at hcount
+      have hx : w1.getD 10 0 = w2.getD 10 0 ∧ w1.getD 11 0 = w2.getD 11 0 := by
+        simp only [show 10 + 1 = 11 from rfl] at hcount
+        omega
+      have l1 := a1.len
+      have l2 := a2.len
+      have : i = 10 ∨ i = 11 := by omega
+      rcases this with rfl | rfl
+      · have := hx.1
+        rw [getD_eq, getD_eq, List.getElem?_eq_getElem (by omega), List.getElem?_eq_getElem (by omega)] at this
+        rw [List.getElem?_eq_getElem (by omega), List.getElem?_eq_getElem (by omega)]
+        simpa using this
+      · have := hx.2
+        rw [getD_eq, getD_eq, List.getElem?_eq_getElem (by omega), List.getElem?_eq_getElem (by omega)] at this
+        rw [List.getElem?_eq_getElem (by omega), List.getElem?_eq_getElem (by omega)]
+        simpa using this
+
+end Model.Tsig
